@@ -33,8 +33,9 @@
 (*   `return` used as an ordinary name (alpha: identifier, delta: keyword);*)
 (*   `extern pub`; flags on `import`; a trailing comma in a parameter      *)
 (*   list; type nestings outside PenneGrammar's contexts (view / slice     *)
-(*   below & or as element, []T / [..]T as element), `void`, a bit or      *)
-(*   suffixed integer as array length; an empty statement `;`; a naked if, *)
+(*   below & or as element, []T / [..]T as element: E350 is a property of  *)
+(*   the complete type), `void`, a bit or suffixed integer as array        *)
+(*   length; an empty statement `;`; a naked if,                           *)
 (*   a declaration or a label as branch of an if (C06's domain); mixing    *)
 (*   binary operators outside the precedence levels of PenneGrammar        *)
 (*   (`a + b & c`, `a & b as T`, `a << b << c`); unary operators applied   *)
@@ -101,6 +102,9 @@ ArrRule(ctx, k) ==
       [] k \in {"int", "return"} -> U(<<k, "]", "TyE">>)
       [] k = ":" -> IF ctx = "T" THEN R(<<":", "]", "TyE">>) ELSE U(<<":", "]", "TyE">>)
       [] k = ".." -> IF ctx \in {"T", "I"} THEN R(<<"..", "]", "TyE">>) ELSE U(<<"..", "]", "TyE">>)
+      \* (docs/errors.md E350 calls [10][]u8 and [][]i32 invalid, but as a property of the COMPLETE compound type: the first
+      \* generation reads `[` `]` as the start of an array view and reports E350 for the whole type afterwards, so the
+      \* closing bracket is not the first token that cannot extend a viable prefix -> extension, not an offending token)
       [] k = "]" -> IF ctx \in {"T", "I"} THEN R(<<"]", "TyE">>) ELSE U(<<"]", "TyE">>)
       [] OTHER -> X
 
